@@ -731,6 +731,67 @@ theorem mrp_history_safe (h : RoundingLaws rnd) (s : Mrp) (ops : List Op) :
     · exact mrp_step_safe h s op
     · exact ih _ evs hevs
 
+/-- absolute-only capabilities: `stepC` is the model used above -/
+theorem mrp_stepC_absolute (s : Mrp) (op : Op) : Mrp.stepC rnd true false s op = Mrp.step rnd s op := by
+  cases op <;> try rfl
+  · by_cases hstop : FVal.eqPy s.vol (.fin mrpUpStop) = true
+    · simp [Mrp.stepC, Mrp.step, hstop]
+    · simp [Mrp.stepC, hstop]
+  · by_cases hstop : FVal.eqPy s.vol (.fin mrpDownStop) = true
+    · simp [Mrp.stepC, Mrp.step, hstop]
+    · simp [Mrp.stepC, hstop]
+
+theorem mrp_stepC_safe (h : RoundingLaws rnd) (ab rl : Bool) (s : Mrp) (op : Op) :
+    ∀ ev ∈ (Mrp.stepC rnd ab rl s op).2, GoodEv InUnit ev := by
+  have hnil : ∀ ev ∈ ([] : List Ev), GoodEv InUnit ev := fun ev hev => by cases hev
+  have hkey : ∀ b, ∀ ev ∈ [Ev.key b], GoodEv InUnit ev := by
+    intro b ev hev
+    simp only [List.mem_cons, List.not_mem_nil, or_false] at hev
+    subst hev; trivial
+  cases op with
+  | up =>
+    simp only [Mrp.stepC]
+    split
+    · exact hnil
+    · split
+      · exact hkey _
+      · split
+        · exact mrp_step_safe h s .up
+        · exact hnil
+  | down =>
+    simp only [Mrp.stepC]
+    split
+    · exact hnil
+    · split
+      · exact hkey _
+      · split
+        · exact mrp_step_safe h s .down
+        · exact hnil
+  | set x => exact mrp_step_safe h s (.set x)
+  | read => exact mrp_step_safe h s .read
+  | report x => exact mrp_step_safe h s (.report x)
+  | reportOther x => exact mrp_step_safe h s (.reportOther x)
+  | streamStart i a => exact mrp_step_safe h s (.streamStart i a)
+  | setRefused x => exact mrp_step_safe h s (.setRefused x)
+
+/-- **Every history, every volume capability of the device** (none / relative / absolute /
+    both): every level received by `set_volume` is a finite number in [0,100], what is put on
+    the wire is within [0,1] (key presses carry no level), every value read is in [0,100],
+    the only exception is ProtocolError. -/
+theorem mrp_history_safe_caps (h : RoundingLaws rnd) (ab rl : Bool) (s : Mrp) (ops : List Op) :
+    ∀ evs ∈ Mrp.runC rnd ab rl s ops, ∀ ev ∈ evs, GoodEv InUnit ev := by
+  induction ops generalizing s with
+  | nil => intro evs hevs; cases hevs
+  | cons op ops ih =>
+    intro evs hevs
+    simp only [Mrp.runC, List.mem_cons] at hevs
+    rcases hevs with rfl | hevs
+    · exact mrp_stepC_safe h ab rl s op
+    · exact ih _ evs hevs
+
+example : Mrp.runC id true true ⟨.fin 98⟩ [.up, .report (.fin 100), .up, .set (.fin 20), .down] =
+    [[.key true], [], [], [.recv (.fin 20), .wire (.fin (1 / 5))], [.key false]] := by decide +kernel
+
 /-- a volume update addressed to another output device -/
 def isOther : Op → Bool
   | .reportOther _ => true
